@@ -66,6 +66,19 @@ def attach(node, t, spelling):
         d = {"times": t}
         d.update(node)
         return d
+    if spelling == "inside":
+        # a group whose children can be written as a YAML mapping (one-key items with an operand list, different names) takes its
+        # times inside the body like an item does: $or: {nop: [], xor: [], times: 3} (F40)
+        op = list(node)[0]
+        kids = node[op]
+        if op in ("$and", "$or", "$and_any_order") and isinstance(kids, list) and len(node) == 1:
+            norm = [k if isinstance(k, dict) else {k: []} for k in kids]
+            if all(len(k) == 1 and isinstance(list(k.values())[0], list) and not str(list(k)[0]).startswith(("$", "&", "@")) for k in norm) and len({list(k)[0] for k in norm}) == len(norm):
+                body = {}
+                for k in norm:
+                    body.update(k)
+                body["times"] = t
+                return {op: body}
     d = dict(node)
     d["times"] = t
     return d
@@ -417,6 +430,8 @@ def evaluate(case):
         ev.tags.append("bounds=around-1000")
     if case.get("spelling"):
         ev.tags.append("spelling=" + case["spelling"])
+    if any(isinstance(it, dict) and len(it) == 1 and str(list(it)[0]).startswith("$") and isinstance(list(it.values())[0], dict) and "times" in list(it.values())[0] for it in (case["pattern"] if isinstance(case["pattern"], list) else [])):
+        ev.tags.append("spelling=times-inside-mapping-form-group")
     if shape in ("sandwich", "free"):
         exp, spans, _ = compare(ev, case["pattern"], L, mn_arg, op_arg)
         ev.tags.append("expect=found" if exp else "expect=notfound")
